@@ -138,15 +138,14 @@ def doRun (a : Json) : Except String Json := do
   let ops ← (← J.getArr a "ops").toList.mapM decodeOpI
   let script ← (← J.getArr a "script").toList.mapM decodeFault
   let w : World := { api := api, script := script, trace := [] }
-  -- the model judged by its own judge (must be true: `KG.Props.C19.c19_durable`), at both strengths
-  let weak := (checkAll sh false st Ghost.empty w ops).all fun p => judge p.1 p.2
-  let full := (checkAll sh true st Ghost.empty w ops).all fun p => judge p.1 p.2
-  pure <| J.obj [("steps", Json.arr (runOps sh st w ops []).toArray), ("judge", J.bool weak), ("judgeFull", J.bool full)]
+  -- the model judged by its own judge (`KG.Props.C19.c19_durable` proves it true on every allowed history)
+  let ok := (checkAll sh st Ghost.empty w ops).all fun p => judge p.1 p.2
+  pure <| J.obj [("steps", Json.arr (runOps sh st w ops []).toArray), ("judge", J.bool ok)]
 
 /-- The judge on observations of the real store. One observation: the operation, the cache before it, whether the
     store was stopped, the crash points (before / inside / after the window), the answers, the API at the return.
-    `full` selects the strength (see `checkObs`). -/
-def judgeObs (sh : Str → Nat) (full : Bool) : Cfg → Ghost → Nat → List Json → Except String Json
+    -/
+def judgeObs (sh : Str → Nat) : Cfg → Ghost → Nat → List Json → Except String Json
   | _, _, _, [] => pure (J.obj [("ok", J.bool true)])
   | cfg, g, i, o :: rest => do
     let op ← decodeOpI (← J.getObj o "op")
@@ -158,7 +157,7 @@ def judgeObs (sh : Str → Nat) (full : Bool) : Cfg → Ghost → Nat → List J
     let obs : Obs := { st := st, op := op, seg1 := ← decodePts o "points", ran := ran, seg2 := ← decodePts o "ipoints",
                        ires := ires, seg3 := ← decodePts o "points3", res := ← decodeRes (← J.getStr o "res"),
                        fin := { objs := ← decodeConds o "api", nextRv := 0 } }
-    let r := checkObs sh full g obs
+    let r := checkObs sh g obs
     match (r.1.zipIdx).find? (fun p => ! judge p.1.1 p.1.2) with
     | some p =>
       let (n, kind) := (firstBroken p.1.1 p.1.2).getD ([], 9)
@@ -168,13 +167,12 @@ def judgeObs (sh : Str → Nat) (full : Bool) : Cfg → Ghost → Nat → List J
       let cfg' := match op with
         | .plain (.restart s wt) => { cfg with shard := s, writeThrough := wt }
         | _ => cfg
-      judgeObs sh full cfg' r.2 (i + 1) rest
+      judgeObs sh cfg' r.2 (i + 1) rest
 
 def doJudge (a : Json) : Except String Json := do
   let sh ← decodeShards a
   let cfg : Cfg := { shard := ← J.getNat a "shard", writeThrough := ← J.getBool a "wt", steps := ← J.getNat a "steps" }
-  let full := (J.getBool a "full").toOption.getD false
-  judgeObs sh full cfg Ghost.empty 0 (← J.getArr a "obs").toList
+  judgeObs sh cfg Ghost.empty 0 (← J.getArr a "obs").toList
 
 def doLoad (a : Json) : Except String Json := do
   let sh ← decodeShards a
